@@ -39,7 +39,7 @@ pub fn run(ctx: &Ctx, out: &mut Outcome) {
     if ctx.replay_seed.is_none() {
         enumerate(ctx, out);
     }
-    super::run_loop(ctx, out, 400, 100_000, 8, one_run);
+    super::run_loop(ctx, out, 3000, 300_000, 8, one_run);
 }
 
 // ------------------------------------------------------------------------------------------
